@@ -157,7 +157,6 @@ impl Column {
         let key = self.base_block_key.clone().block(block_id);
 
         let mut block_header = BlockMeta::default();
-        let mut do_verify_checksum = false;
 
         // support multiple I/O backend
         let block =
@@ -190,27 +189,28 @@ impl Column {
                     // TODO(chi): we should invalidate cache item after a RowSet has been compacted.
                     // self.block_cache.insert(key, block.clone()).await;
 
-                    // need to verify checksum when read from disk
-                    do_verify_checksum = true;
-                    block
+                    // need to verify checksum when read from disk, before the block enters
+                    // the cache: cached blocks are trusted by later reads
+                    let block = block?;
+                    if block.len() < BLOCK_META_SIZE {
+                        return Err(TracedStorageError::decode(
+                            "block is smaller than header size",
+                        ));
+                    }
+                    let mut block_header = BlockMeta::default();
+                    let mut header = &block[block.len() - BLOCK_META_SIZE..];
+                    block_header.decode(&mut header)?;
+                    verify_checksum(
+                        block_header.checksum_type,
+                        &block[..block.len() - BLOCK_META_CHECKSUM_SIZE],
+                        block_header.checksum,
+                    )?;
+                    Ok(block)
                 })
                 .await?;
 
-        if block.len() < BLOCK_META_SIZE {
-            return Err(TracedStorageError::decode(
-                "block is smaller than header size",
-            ));
-        }
         let mut header = &block[block.len() - BLOCK_META_SIZE..];
         block_header.decode(&mut header)?;
-
-        if do_verify_checksum {
-            verify_checksum(
-                block_header.checksum_type,
-                &block[..block.len() - BLOCK_META_CHECKSUM_SIZE],
-                block_header.checksum,
-            )?;
-        }
 
         Ok((block_header, block.slice(..block.len() - BLOCK_META_SIZE)))
     }
